@@ -156,15 +156,15 @@ Proof. vm_compute. repeat split; try exact I; intros; discriminate. Qed.
    model; the theorems above hold for the state the model is in after that log. *)
 From Verif Require Import Life.Accept Life.AcceptProofs.
 
-Theorem C11_accepted_log_is_a_model_interleaving : forall c log,
-  accepts c log = true -> exists s', explains c init log s'.
+Theorem C11_accepted_log_is_a_model_interleaving : forall c cap log,
+  accepts c cap log = Some true -> exists s', explains c init log s'.
 Proof. exact accepts_sound. Qed.
 Print Assumptions C11_accepted_log_is_a_model_interleaving.
 
-Theorem C11_at_most_one_live_run_after_accepted_log : forall c log,
-  accepts c log = true -> exists s', explains c init log s' /\ n_open s' <= 1.
+Theorem C11_at_most_one_live_run_after_accepted_log : forall c cap log,
+  accepts c cap log = Some true -> exists s', explains c init log s' /\ n_open s' <= 1.
 Proof.
-  intros c log H. destruct (accepts_sound c log H) as [s' Hex]. exists s'. split; [exact Hex|].
+  intros c cap log H. destruct (accepts_sound c cap log H) as [s' Hex]. exists s'. split; [exact Hex|].
   destruct (explains_run c _ _ _ Hex) as [acts Ha]. eapply at_most_one_live_run; eauto.
 Qed.
 Print Assumptions C11_at_most_one_live_run_after_accepted_log.
